@@ -188,3 +188,306 @@ def pop_prove_verify(rep, tier):
                 rep.unknown("feasibility of a rejecting PopProve->PopVerify path undecided")
     core.explore(run, on_path=on_path, ctx_kwargs=dict(branch_timeout_ms=60000))
     require(rep, seen["refused"] > 0 and seen["verified"] > 0, "PoP reachability", None, rp)
+
+
+# ---------------------------------------------------------------------------
+# shared set-up for the adversarial-candidate obligations
+
+def prime_lemma(ctx, a, b, rep=None):
+    """lemma instance (r prime): a, b not multiples of r  =>  a*b not a multiple of r."""
+    from symx.blsmodel import Poly
+    pa, pb = Poly.lift(a), Poly.lift(b)
+    ctx.add_fact(z3.Implies(z3.And(pa.z3() % r != 0, pb.z3() % r != 0), (pa * pb).z3() % r != 0))
+    if rep is not None:
+        rep.trust("r is prime: a product of two non-multiples of r is a non-multiple of r (lemma instances on the exponents of the path)")
+
+
+def honest_key(S, W, name="sk"):
+    sk = SymZ.var(name)
+    core.cur().assume(z3.And(sk.t >= 1, sk.t < r))
+    return sk, S.SkToPk(sk)
+
+
+def verify_fn(S, which):
+    if which == "PopVerify":
+        return lambda pk, m, sig: S.PopVerify(pk, sig)
+    return lambda pk, m, sig: S.Verify(pk, m, sig)
+
+
+def sign_fn(S, which):
+    if which == "PopVerify":
+        return lambda sk, m: S.PopProve(sk)
+    return lambda sk, m: S.Sign(sk, m)
+
+
+# ---------------------------------------------------------------------------
+# C02
+
+def _c02(rep, suite, which):
+    cs = cs_mod()
+    S = getattr(cs, suite)
+    rep.encoded(S.Verify, cs.BaseG2Ciphersuite._CoreVerify, cs.BaseG2Ciphersuite.KeyValidate, S._is_valid_pubkey, cs.BaseG2Ciphersuite._is_valid_signature)
+    rep.stub("ideal model (symx.blsmodel)")
+    rp = {"kind": "bls_unique", "args": {"suite": suite, "which": which}}
+    tag = "%s.%s" % (suite, which)
+    seen = {True: 0, False: 0}
+
+    def run(ctx):
+        W = World()
+        m = SymBytes.var("m", 0, 4)
+        sig = SymBytes.var("sig", length=96)
+        with world.patched(cs, **W.bindings()):
+            sk, pk = honest_key(S, W)
+            canon = sign_fn(S, which)(sk, m)
+            n_pair = len(W.pairings)
+            res = verify_fn(S, which)(pk, m, sig)
+            okb = bool(res)
+        return W, sk, m, sig, canon, okb, n_pair
+
+    def on_path(pth):
+        rep.paths += 1
+        if pth.kind != "ret":
+            rep.fail("%s raised %r on a 96-byte candidate" % (tag, pth.value), rp)
+            return
+        W, sk, m, sig, canon, okb, n_pair = pth.value
+        seen[okb] += 1
+        if okb:
+            # lemma instances for the exponents on this path (r prime)
+            g, mdl = pth.ctx.prove(sig.t == canon.t, timeout_ms=120000)
+            require(rep, g, "%s accepts a 96-byte string => it is byte-for-byte the signature Sign produces" % tag, pth.decisions, rp)
+            monitor_pairings(rep, pth, W, tag, rp)
+        else:
+            g, mdl = pth.ctx.prove(sig.t != canon.t, timeout_ms=120000)
+            require(rep, g, "%s rejects => the string is not the canonical signature" % tag, pth.decisions, rp)
+    core.explore(run, on_path=on_path, ctx_kwargs=dict(branch_timeout_ms=60000))
+    require(rep, seen[True] > 0 and seen[False] > 0, "%s: accepting and rejecting paths both reachable" % tag, None, rp)
+
+
+for _s in SUITES:
+    def _mk2(s, w):
+        def f(rep, tier):
+            _c02(rep, s, w)
+        return f
+    obligation("C02", "unique_%s" % _s, timeout=1200,
+               bound="every sk in [1, r-1], every message (opaque), EVERY 96-byte candidate string: Verify is True iff the string equals Sign(sk, m)")(_mk2(_s, "Verify"))
+obligation("C02", "unique_PopVerify", timeout=1200, bound="every sk in [1, r-1], every 96-byte candidate proof")(_mk2("G2ProofOfPossession", "PopVerify"))
+
+
+@obligation("C02", "cross_domain_and_related_signatures", timeout=1500,
+            bound="every sk, sk2 in [1, r-1], every message pair; candidates: other key, other message, other suite, PoP-vs-message tag, AUG without prefix, -S, 2S, S+T (T != 0 torsion), infinity")
+def c02_corollaries(rep, tier):
+    cs = cs_mod()
+    rp = {"kind": "bls_related", "args": {}}
+    rep.stub("ideal model (symx.blsmodel)")
+    Basic, Aug, Pop = cs.G2Basic, cs.G2MessageAugmentation, cs.G2ProofOfPossession
+    rep.encoded(Basic.Verify, Aug.Verify, Pop.Verify, Pop.PopVerify)
+
+    def scenario(name, build, expect_false=True):
+        res = {"n": 0}
+
+        def run(ctx):
+            W = World()
+            with world.patched(cs, **W.bindings()):
+                out = build(ctx, W)
+                return W, bool(out)
+
+        def on_path(pth):
+            rep.paths += 1
+            if pth.kind != "ret":
+                rep.fail("scenario %s raised %r" % (name, pth.value), rp)
+                return
+            W, okb = pth.value
+            res["n"] += 1
+            if okb:
+                g, mdl = pth.ctx.satisfiable(timeout_ms=120000)
+                if g == "sat":
+                    rep.fail("scenario '%s': the verifier ACCEPTS" % name, {"kind": "bls_related", "args": {"scenario": name}})
+                elif g == "unknown":
+                    rep.unknown("scenario '%s': feasibility of the accepting path undecided" % name)
+            else:
+                rep.ok("scenario '%s' rejected on this path" % name, path=pth.decisions)
+        core.explore(run, on_path=on_path, ctx_kwargs=dict(branch_timeout_ms=60000))
+        require(rep, res["n"] > 0, "scenario '%s' explored" % name, None, rp)
+
+    def two_keys(ctx, W, S):
+        sk, pk = honest_key(S, W, "sk")
+        sk2 = SymZ.var("sk2")
+        ctx.assume(z3.And(sk2.t >= 1, sk2.t < r, sk2.t != sk.t))
+        return sk, pk, sk2
+
+    def other_key(ctx, W):
+        sk, pk, sk2 = two_keys(ctx, W, Basic)
+        m = SymBytes.var("m", 0, 4)
+        sig = Basic.Sign(sk2, m)
+        h = W.hash_calls[-1][3]
+        prime_lemma(ctx, h, sk2.t - sk.t, rep)
+        return Basic.Verify(pk, m, sig)
+    scenario("signature of another key", other_key)
+
+    def other_message(ctx, W):
+        sk, pk = honest_key(Basic, W)
+        m1, m2 = SymBytes.var("m1", 0, 4), SymBytes.var("m2", 0, 4)
+        ctx.assume(m1.t != m2.t)
+        sig = Basic.Sign(sk, m1)
+        h1 = W.hash_calls[-1][3]
+        out = Basic.Verify(pk, m2, sig)
+        h2 = W.hash_calls[-1][3]
+        prime_lemma(ctx, h1 - h2, sk.t, rep)
+        return out
+
+    def other_message_run(ctx, W):
+        # lemma must be in place before the final comparison: pre-register both hash values
+        sk, pk = honest_key(Basic, W)
+        m1, m2 = SymBytes.var("m1", 0, 4), SymBytes.var("m2", 0, 4)
+        ctx.assume(m1.t != m2.t)
+        h1 = W.hash_to_G2(m1, Basic.DST, Basic.xmd_hash_function).k
+        h2 = W.hash_to_G2(m2, Basic.DST, Basic.xmd_hash_function).k
+        prime_lemma(ctx, h1 - h2, sk.t, rep)
+        sig = Basic.Sign(sk, m1)
+        return Basic.Verify(pk, m2, sig)
+    scenario("signature on another message", other_message_run)
+
+    def other_suite(ctx, W):
+        sk, pk = honest_key(Basic, W)
+        m = SymBytes.var("m", 0, 4)
+        h1 = W.hash_to_G2(m, Basic.DST, Basic.xmd_hash_function).k
+        h2 = W.hash_to_G2(m, Pop.DST, Pop.xmd_hash_function).k
+        prime_lemma(ctx, h1 - h2, sk.t, rep)
+        sig = Pop.Sign(sk, m)
+        return Basic.Verify(pk, m, sig)
+    scenario("signature made under another suite (POP tag checked by NUL suite)", other_suite)
+
+    def pop_as_sig(ctx, W):
+        sk, pk = honest_key(Pop, W)
+        h1 = W.hash_to_G2(pk, Pop.DST, Pop.xmd_hash_function).k
+        h2 = W.hash_to_G2(pk, Pop.POP_TAG, Pop.xmd_hash_function).k
+        prime_lemma(ctx, h1 - h2, sk.t, rep)
+        proof = Pop.PopProve(sk)
+        return Pop.Verify(pk, pk, proof)
+    scenario("possession proof presented as a message signature on the key", pop_as_sig)
+
+    def sig_as_pop(ctx, W):
+        sk, pk = honest_key(Pop, W)
+        h1 = W.hash_to_G2(pk, Pop.DST, Pop.xmd_hash_function).k
+        h2 = W.hash_to_G2(pk, Pop.POP_TAG, Pop.xmd_hash_function).k
+        prime_lemma(ctx, h1 - h2, sk.t, rep)
+        sig = Pop.Sign(sk, pk)
+        return Pop.PopVerify(pk, sig)
+    scenario("message signature on the key presented as a possession proof", sig_as_pop)
+
+    def aug_without_prefix(ctx, W):
+        sk, pk = honest_key(Aug, W)
+        m = SymBytes.var("m", 0, 4)
+        h1 = W.hash_to_G2(pk + m, Aug.DST, Aug.xmd_hash_function).k
+        h2 = W.hash_to_G2(pk + (pk + m), Aug.DST, Aug.xmd_hash_function).k
+        prime_lemma(ctx, h1 - h2, sk.t, rep)
+        # signature over m WITHOUT the key prefix (as the core would produce), verified by the augmenting Verify
+        sig = cs.BaseG2Ciphersuite._CoreSign.__func__(Aug, sk, m, Aug.DST)
+        h0 = W.hash_calls[-1][3]
+        prime_lemma(ctx, h0 - h1, sk.t, rep)
+        return Aug.Verify(pk, m, sig)
+    scenario("augmented suite: signature computed without the key prefix", aug_without_prefix)
+
+    def variant(kind):
+        def f(ctx, W):
+            sk, pk = honest_key(Basic, W)
+            m = SymBytes.var("m", 0, 4)
+            H = W.hash_to_G2(m, Basic.DST, Basic.xmd_hash_function)
+            prime_lemma(ctx, H.k, sk.t, rep)
+            S_pt = W.multiply(H, sk)
+            if kind == "neg":
+                P = W.neg(S_pt)
+                prime_lemma(ctx, z3.IntVal(2), H.k * sk.t, rep)
+            elif kind == "double":
+                P = W.add(S_pt, S_pt)
+            elif kind == "torsion":
+                t = z3.Int("tors")
+                ctx.assume(t != 0)
+                P = MP("G2", S_pt.kp, t)
+            else:
+                P = MP("G2", 0, 0)
+            sig = W.G2_to_signature(P)
+            return Basic.Verify(pk, m, sig)
+        return f
+    scenario("negated signature -S", variant("neg"))
+    scenario("doubled signature 2S", variant("double"))
+    scenario("S + T for a non-trivial cofactor-torsion point T", variant("torsion"))
+    scenario("the identity encoding as signature", variant("inf"))
+
+
+# ---------------------------------------------------------------------------
+# C09
+
+@obligation("C09", "outputs_are_the_ietf_byte_strings", timeout=900,
+            bound="every sk in [1, r-1], every message; the three suites and PopProve; tags compared with literals pinned in the harness")
+def c09_outputs(rep, tier):
+    cs = cs_mod()
+    rp = {"kind": "bls_vectors", "args": {}}
+    rep.stub("ideal model (symx.blsmodel); ENC1/ENC2 are the ZCash compressed encodings (C11), hash_to_G2 is RFC 9380 hash_to_curve (C10/C15), G1 the standard generator (C07)")
+    import hashlib
+    for suite in SUITES:
+        S = getattr(cs, suite)
+        rep.encoded(S.SkToPk, S.Sign, cs.BaseG2Ciphersuite._CoreSign)
+        require(rep, S.DST == DST[suite], "%s.DST is the IETF v4 tag %r" % (suite, DST[suite]), None, rp)
+
+        def run(ctx, S=S, suite=suite):
+            W = World()
+            sk = SymZ.var("sk", 1, r - 1)
+            m = SymBytes.var("m", 0, 4)
+            with world.patched(cs, **W.bindings()):
+                pk = S.SkToPk(sk)
+                n0 = len(W.hash_calls)
+                sig = S.Sign(sk, m)
+            return W, sk, m, pk, sig, n0
+
+        def on_path(pth, S=S, suite=suite):
+            rep.paths += 1
+            if pth.kind != "ret":
+                rep.fail("%s SkToPk/Sign raised %r for a valid key" % (suite, pth.value), rp)
+                return
+            W, sk, m, pk, sig, n0 = pth.value
+            enc_pk = [e for e in W.encodes if e[0] == 1]
+            require(rep, len(enc_pk) >= 1 and enc_pk[0][1].group == "G1", "%s.SkToPk encodes a G1 point" % suite, pth.decisions, rp)
+            g, mdl = pth.ctx.prove(z3.And(enc_pk[0][1].k == sk.t, enc_pk[0][1].t == 0, pk.t == enc_pk[0][2]))
+            require(rep, g, "%s.SkToPk(sk) = compress(sk * G1)" % suite, pth.decisions, rp)
+            calls = W.hash_calls[n0:]
+            require(rep, len(calls) == 1, "%s.Sign hashes to the curve exactly once" % suite, pth.decisions, rp)
+            hm, hd, hf, he = calls[0]
+            want_msg = (pk + m) if suite == "G2MessageAugmentation" else m
+            g, mdl = pth.ctx.prove(z3.And(hm.t == SymBytes.lift(want_msg).t, hd.t == SymBytes.concrete(DST[suite]).t))
+            require(rep, g, "%s.Sign hashes %s under the suite tag" % (suite, "PK || message" if suite == "G2MessageAugmentation" else "the message"),
+                    pth.decisions, rp)
+            require(rep, getattr(hf, "__symx_hash_name__", getattr(hf, "__name__", "")) in ("sha256", "openssl_sha256"),
+                    "%s.Sign uses SHA-256 for expand_message_xmd" % suite, pth.decisions, rp)
+            enc_sig = [e for e in W.encodes if e[0] == 2][-1]
+            from symx.blsmodel import Poly
+            g, mdl = pth.ctx.prove(z3.And(enc_sig[1].k == (Poly.lift(he) * Poly.lift(sk.t)).z3(), enc_sig[1].t == 0, sig.t == enc_sig[2]))
+            require(rep, g, "%s.Sign(sk, m) = compress(sk * hash_to_curve(...))" % suite, pth.decisions, rp)
+        core.explore(run, on_path=on_path)
+
+    S = cs.G2ProofOfPossession
+    require(rep, S.POP_TAG == POP_TAG, "POP_TAG is the IETF v4 tag", None, rp)
+
+    def run_pop(ctx):
+        W = World()
+        sk = SymZ.var("sk", 1, r - 1)
+        with world.patched(cs, **W.bindings()):
+            proof = S.PopProve(sk)
+        return W, sk, proof
+
+    def on_pop(pth):
+        rep.paths += 1
+        if pth.kind != "ret":
+            rep.fail("PopProve raised %r" % (pth.value,), rp)
+            return
+        W, sk, proof = pth.value
+        hm, hd, hf, he = W.hash_calls[-1]
+        pk_enc = [e for e in W.encodes if e[0] == 1][0]
+        g, mdl = pth.ctx.prove(z3.And(hm.t == pk_enc[2], hd.t == SymBytes.concrete(POP_TAG).t, pk_enc[1].k == sk.t))
+        require(rep, g, "PopProve signs the public key sk*G1 under the BLS_POP_ tag", pth.decisions, rp)
+        enc_sig = [e for e in W.encodes if e[0] == 2][-1]
+        from symx.blsmodel import Poly
+        g, mdl = pth.ctx.prove(z3.And(enc_sig[1].k == (Poly.lift(he) * Poly.lift(sk.t)).z3(), proof.t == enc_sig[2]))
+        require(rep, g, "PopProve(sk) = compress(sk * hash_to_curve(PK, POP tag))", pth.decisions, rp)
+    core.explore(run_pop, on_path=on_pop)
+    rep.note("byte-level conformance = this obligation + C11 (ZCash format) + C10/C15 (RFC 9380) + C07 (generator constants); published vectors are replay oracles")
